@@ -358,6 +358,8 @@ func (p *Project) SetFeature(k string) {
 	p.Features[k] = true
 }
 
+func (p *Project) HasFeature(k string) bool { return p.Features[k] }
+
 func (p *Project) FeatureList() []string {
 	var ks []string
 	for k, v := range p.Features {
